@@ -247,4 +247,14 @@ def readBlockInfos (c : Codec) (sync : Bytes) : Nat → Nat → Bytes → List B
           let (more, e) := readBlockInfos c sync k (off + size) rest
           ({ offset := off, size := size, numRecords := count, payload := payload } :: more, e)
 
+/-- closing a writer and opening a new one on the same stream (`writer(fo, …)` on an appendable `fo`): the old writer
+    flushes; the new one re-reads the header and takes the marker and the codec named there (`codecFor` is
+    `BLOCK_WRITERS[...]`); its own `codec` / `sync_marker` / `schema` / `metadata` arguments are not consulted -/
+def reopenStep (codecFor : String → Option Codec) (cfg : WCfg) (st : WState) : R (WCfg × WState) := do
+  let st := dumpIfPending cfg st
+  let (sync, name) ← reopen st.out
+  match codecFor name with
+  | some c => pure ({ cfg with codec := c, sync := sync }, st)
+  | none => throw .value
+
 end Container
